@@ -928,7 +928,12 @@ NONE_PARAMS = {
 def nt1(ctx, R):
     prog = ctx.prog
     for q, params in sorted(NONE_PARAMS.items()):
-        fi = prog.func(q)
+        if q == "common._components_to_path":
+            from .rules_paths import find_path_encoder
+            fi = find_path_encoder(prog)          # wherever the encoder lives today
+            q = fi.qual
+        else:
+            fi = prog.func(q)
         for p, why in sorted(params.items()):
             if p not in fi.params:
                 raise AnchorMissing("%s parameter %s" % (q, p))
